@@ -85,7 +85,11 @@ theorem wf_step (s : State) (c : Call) (h : s.WF) : (step s c).1.WF := by
   case logout => unfold stepLogout; step_cases <;> wf_leaf h
   case initPin => unfold stepInitPin; step_cases <;> wf_leaf h
   case setPin => unfold stepSetPin; step_cases <;> wf_leaf h
-  case create => unfold stepCreate; step_cases <;> wf_leaf h
+  case create => unfold stepCreate addObject; step_cases <;> wf_leaf h
+  case getAttr => unfold stepGetAttr; step_cases <;> wf_leaf h
+  case setAttr => unfold stepSetAttr; step_cases <;> wf_leaf h
+  case copy => unfold stepCopy addObject; step_cases <;> wf_leaf h
+  case objSize => unfold stepObjSize; step_cases <;> wf_leaf h
   case destroy => unfold stepDestroy; step_cases <;> wf_leaf h
   case objProbe => unfold stepObjProbe; step_cases <;> wf_leaf h
   case findInit => unfold stepFindInit; step_cases <;> wf_leaf h
